@@ -29,6 +29,9 @@ pub struct SeqParams {
     /// maintenance call is accepted, provided the database still holds exactly what it held before it
     #[serde(default)]
     pub oom_tolerant: bool,
+    /// VACUUM is part of the alphabet also while sessions are open
+    #[serde(default)]
+    pub vacuum_with_sessions: bool,
 }
 
 pub fn enabled(m: &Model, op: &Op) -> bool {
@@ -40,7 +43,8 @@ pub fn enabled(m: &Model, op: &Op) -> bool {
         Op::In(n, _) | Op::Commit(n) | Op::Rollback(n) | Op::DropSession(n) => m.sessions.contains_key(n),
         // VACUUM is documented to abort open transactions and reopen ends them; a checkpoint (flush) with
         // sessions open is ordinary use and matters for C02 (uncommitted data reaches the data file)
-        Op::Vacuum | Op::Reopen | Op::Analyze => m.sessions.is_empty(),
+        Op::Vacuum => m.sessions.is_empty() || m.vacuum_with_sessions,
+        Op::Reopen | Op::Analyze => m.sessions.is_empty(),
         Op::Flush => true,
         Op::Audit => true,
         Op::Auto(_) | Op::Batch(_) => true,
@@ -102,7 +106,9 @@ impl Exec {
     pub fn new(p: &SeqParams) -> Result<Exec, String> {
         let hz: BTreeSet<String> = p.hazards.iter().cloned().collect();
         let db = Db::create("seq", p.cfg)?;
-        Ok(Exec { db, oom_tolerant: p.oom_tolerant, model: Model::new(&hz), log: vec![], digest: vec![], counters: BTreeMap::new() })
+        let mut model = Model::new(&hz);
+        model.vacuum_with_sessions = p.vacuum_with_sessions;
+        Ok(Exec { db, oom_tolerant: p.oom_tolerant, model, log: vec![], digest: vec![], counters: BTreeMap::new() })
     }
 
     fn count(&mut self, k: &str) {
@@ -188,8 +194,10 @@ impl Exec {
             Op::Commit(n) => {
                 self.count("commits");
                 let r = self.db.commit(*n);
-                let ok = r.is_ok();
-                note(self, op.show(), &Exp::Unit, format!("{r:?}"), ok);
+                // a session whose transaction was aborted under it (VACUUM) must not be able to commit
+                let must_fail = matches!(exps.first(), Some(Exp::Err(_)));
+                let ok = if must_fail { r.is_err() } else { r.is_ok() };
+                note(self, op.show(), &exps[0], format!("{r:?}"), ok);
                 if !ok {
                     div = Some(format!("{}: {:?}", op.show(), r));
                 }
@@ -397,7 +405,15 @@ pub fn run_once(p: &SeqParams, hist: &[usize]) -> StepReport {
             }
         }
     }
-    rep.status = "ok".into();
+    if ex.model.quirks.is_empty() {
+        rep.status = "ok".into();
+    } else {
+        // the engine behaved exactly as a listed finding says (and as the model, following it, predicted)
+        rep.status = "known".into();
+        rep.findings = ex.model.quirks.clone();
+        rep.detail = format!("listed finding re-observed exactly as recorded\n{}", ex.log.join("\n"));
+        rep.stop = false;
+    }
     finish(&ex, &mut rep);
     rep
 }
